@@ -90,9 +90,8 @@ Fixpoint run_mut (m : mut) (w : world) {struct m} : world * flow :=
       (* only the exit status (and output) flow back into the cloned part; the process-global
          part is the same kernel object *)
       ((cset status_field [lit "?"] (merge_back shell_clone_table (fst w) (fst w')), snd w'),
-       (* interp.rs: the result of the last pipeline stage, control flow included, becomes the
-          result of the pipeline; every other context reduces the result to an exit code *)
-       match c, fl' with CPipeLast, Exited => Exited | _, _ => Go end)
+       (* every context reduces the subshell's result to an exit code *)
+       match c, fl' with _, _ => Go end)
   end.
 
 Fixpoint run_list (l : list mut) (w : world) : world * flow :=
